@@ -101,10 +101,16 @@ class Pool:
                 break
             res = w.call(req)
             if not res.get('ok') and res.get('error', '').startswith('worker'):
-                # restart the worker process once
+                # the worker process is gone (its wall-clock watchdog on a loaded machine, the OOM killer): start another and
+                # give the same request one more try; a second death is reported as a harness error
                 w.close()
                 nw = Worker(w.hashseed)
                 w.p = nw.p
+                res = w.call(req)
+                if not res.get('ok') and res.get('error', '').startswith('worker'):
+                    w.close()
+                    nw = Worker(w.hashseed)
+                    w.p = nw.p
             res['req'] = {k: v for k, v in req.items() if k != 'plan'}
             self.results.put(res)
 
